@@ -160,6 +160,38 @@ def raising_calls():
     ]
 
 
+def raising_inside_every_dispatch():
+    """(name, thunk) — for every getter / unary / binary method of the catalogue a call whose failure happens INSIDE the compute
+    dispatch (after the error state was switched): operands that cannot be broadcast, and object-dtype coordinates holding None"""
+    import vector
+    out = []
+    none = lambda n: numpy.array([None, 1.0, 2.0][:n], dtype=object)  # noqa: E731
+    for dim in (2, 3, 4):
+        for names in (H.SYS[dim][0], H.SYS[dim][-1]):
+            try:
+                bad = vector.array({k: none(3) for k in names})
+            except Exception:
+                bad = None
+            good3 = vector.array({k: numpy.array([1.0, 2.0, 3.0]) + i for i, k in enumerate(names)})
+            good4 = vector.array({k: numpy.array([1.0, 2.0, 3.0, 4.0]) + i for i, k in enumerate(names)})
+            tag = f"{dim}D:{H.sysname(names)}"
+            for g in AH.GETTERS[dim]:
+                if bad is not None:
+                    out.append((f"None-coordinate:{tag}:{g}", (lambda v=bad, g=g: getattr(v, g))))
+            for nm, (mind, f) in AH.UNARY.items():
+                if mind <= dim and bad is not None:
+                    out.append((f"None-coordinate:{tag}:{nm}", (lambda v=bad, f=f: f(v))))
+            for nm, (da, db, f) in AH.BINARY.items():
+                if (da or dim) != dim:
+                    continue
+                bd = db or dim
+                o4 = vector.array({k: numpy.array([1.0, 2.0, 3.0, 4.0]) * 0.1 + 0.05 * i for i, k in enumerate(H.SYS[bd][0])})
+                out.append((f"no-broadcast:{tag}:{nm}", (lambda a=good3, b=o4, f=f: f(a, b))))
+                if bad is not None and bd == dim:
+                    out.append((f"None-coordinate:{tag}:{nm}", (lambda a=bad, b=good3, f=f: f(a, b))))
+    return out
+
+
 def build_calls(ctx_seed, deep):
     """list of (site, thunk) over backends x systems x flavors; operands are built once, outside the observed call"""
     calls = []
@@ -282,7 +314,7 @@ def run(ctx):
         if th is None:
             ctx.fail(site, "constructor raised on a valid record", {})
     calls = [(s, t) for s, t in calls if t is not None]
-    raising = raising_calls()
+    raising = raising_calls() + raising_inside_every_dispatch()
     for setting in SETTINGS:
         with Setting(setting):
             for site, th in calls + [("raising:" + nm, t) for nm, t in raising]:
